@@ -75,7 +75,7 @@ func runC12(a *A) {
 			// reachable formatting calls whose constant format starts with "."
 			var fmts, args []string
 			var pos string
-			instrs(cd.valFn, func(in ssa.Instruction) {
+			instrs(rv.Fn, func(in ssa.Instruction) {
 				c, ok := in.(*ssa.Call)
 				if !ok || !rv.Exec[c.Block()] {
 					return
